@@ -21,7 +21,9 @@
 (***************************************************************************)
 EXTENDS TxAuth, TLC, Json
 
-CONSTANTS DataLens,     \* call-data lengths of the re-framed payloads
+CONSTANTS KeyScalars,   \* private scalars of the key sweep (besides the pinned ones)
+          VDeltas,      \* arithmetic changes of the payload's V
+          DataLens,     \* call-data lengths of the re-framed payloads
           HashBits, SignBits, SourceBits, FieldBits, EdBits,   \* bit positions swept (sets of naturals)
           CtxAll       \* TRUE: every case in every pool context; FALSE: the bit sweeps only in the empty pool
 
@@ -29,11 +31,17 @@ VARIABLES phase, c
 vars == <<phase, c>>
 
 Case(h, mut, cls, tx, base) ==
-  [op |-> "verify", h |-> h, mut |-> mut, cls |-> cls, tx |-> tx, base |-> base, ctx |-> "empty", bits |-> FALSE]
+  [op |-> "verify", h |-> h, mut |-> mut, cls |-> cls, tx |-> tx, base |-> base, ctx |-> "empty", bits |-> FALSE, key |-> 0]
+(* private scalars whose public X or Y starts with 1, 2, 3 zero bytes (found once by search) *)
+PinnedKeys == {122, 130, 153, 246, 41192, 394851, 44629, 58165, 8169169, 8673773, 21753172}
 (* bit-sweep families: crossed with the pool contexts only when CtxAll *)
 Sweep(S) == {[cs EXCEPT !.bits = TRUE] : cs \in S}
 InContexts(S) == UNION { IF CtxAll \/ ~cs.bits THEN {[cs EXCEPT !.ctx = x] : x \in Contexts} ELSE {cs} : cs \in S }
 Other(h) == IF h = "low" THEN "high" ELSE "low"
+
+(* key sweep: the honest transaction signed by the key with that private scalar (key |-> scalar; 0 =
+   seeded random keys) *)
+KeySweep(h, b) == Sweep({ [Case(h, "keysweep", "honest", b, b) EXCEPT !.key = k] : k \in KeyScalars \cup PinnedKeys })
 
 ContentFields == HashedSet \ {"Source", "ChainId"}
 
@@ -58,9 +66,15 @@ NativeCases(h) ==
   \cup { Case(h, "hash:zero", "auth", DamageHash(b, "zero", 0), b),
          Case(h, "sign:nil", "auth", DamageSign(b, "nil", 0), b),
          Case(h, "sign:random", "auth", DamageSign(b, "random", 0), b),
-         Case(h, "sign:malleated", "auth", DamageSign(b, "malleated", 0), b) }
+         Case(h, "sign:malleated", "auth", DamageSign(b, "malleated", 0), b),
+         \* the same (r, s) with the recovery id written the other way (27/28 <-> 0/1): other signature bytes
+         Case(h, "sign:recid-alias", "auth", DamageSign(b, "recid-alias", 0), b) }
   \cup Sweep({ Case(h, "sign:flip", "auth", DamageSign(b, "flip", i), b) : i \in SignBits })
   \cup { Case(h, "unauth:" \o n, "unauth", SetField(b, n, 1), b) : n \in UnauthFields }
+  \cup KeySweep(h, b)
+  \* the same transaction declaring as Source the digest of the UNPADDED public coordinates (another
+  \* address exactly when X or Y starts with a zero byte; not offered otherwise)
+  \cup Sweep({ [Case(h, "keysweep:unpadded-source", "auth", Resign(Rehash(SetField(b, "Source", 5)), 1), b) EXCEPT !.key = k] : k \in PinnedKeys \cup {1, 2, 3} })
   \* textual variations of a field that read the same but are another hash pre-image (hash not recomputed)
   \cup { Case(h, "textual:" \o nv[1] \o ":" \o ToString(nv[2]), "auth", SetField(b, nv[1], nv[2]), b) :
            nv \in {<<"Data", 3>>, <<"Data", 4>>, <<"Data", 5>>, <<"Time", 3>>, <<"ExtraData", 3>>, <<"Target", 3>>, <<"Source", 4>>} }
@@ -99,6 +113,15 @@ EthCases(h, to) ==
                { Case(h, "reframe-data:" \o how, "auth", Reframe(bl, it, how), bl) : it \in {0, 6}, how \in ReframeHows }
                \cup { Case(h, "honest", "honest", bl, bl) }
                : dl \in DataLens }
+  \cup KeySweep(h, b)
+  \* arithmetic on the payload's V, the wrapper declaring the chain id derived from that V ("pay") or this chain's
+  \cup Sweep(UNION { { Case(h, "v:delta", "auth", SetWrap(SetV(b, "delta", d, 0), "ChainId", w), b),
+                       Case(h, "v:delta", "auth", SetWrap(SetV(b, "delta", 0 - d, 0), "ChainId", w), b) }
+                     : d \in VDeltas \ {0}, w \in {"pay", ChainOf(h)} })
+  \cup Sweep({ Case(h, "v:abs", "auth", SetWrap(SetV(b, "abs", d, 0), "ChainId", w), b) :
+                 d \in {0, 1, 27, 28, 35, 36}, w \in {"pay", ChainOf(h), "zero"} })
+  \cup Sweep({ Case(h, "v:chain", "auth", SetWrap(SetV(b, "chain", d, par), "ChainId", w), b) :
+                 d \in {-28, -27, -1, 1}, par \in {0, 1}, w \in {"pay", ChainOf(h)} })
   \cup { Case(h, "free:" \o n, "unauth", SetWrap(b, n, IF n = "Sign" THEN "some" ELSE 1), b) : n \in EthFree }
 
 Seeds == { [op |-> "seed", kind |-> "native", h |-> h] : h \in Heights }
